@@ -850,12 +850,11 @@ CASES += [
 ]
 
 # ninth round of behaviour-preserving patches (bn31 the ROBDD core, bn32 the CLI program, bn33 the evaluation half of the parser and the
-# exporters, bn34 the generators, bn35 the parser once more): 38 of 40 silent after the generalisations of DESIGN.md 15.7, two known alarms
+# exporters, bn34 the generators, bn35 the parser once more): 39 of 40 silent after the generalisations of DESIGN.md 15.7, one known alarm
 _BN9 = {31: ['C01', 'C02', 'C03', 'C05', 'C07', 'C13', 'C19', 'C20'], 32: ['C07', 'C09', 'C10', 'C11', 'C12', 'C14', 'C20'], 33: ['C07', 'C09', 'C10', 'C11', 'C12', 'C13', 'C14'],
         34: ['C15', 'C16', 'C17', 'C18'], 35: ['C01', 'C03', 'C04', 'C05', 'C06', 'C08', 'C11']}
 _BN9_FILE = {31: B, 32: M, 33: P, 34: G, 35: P}
-_BN9_KNOWN = {'bn34-03': 'max_clique_gen writes its three vertex lists through a new helper with a hand-written separator loop: the clique text rules compare the pieces of text main emits with a reference bag of templates and count the uses of the vertex collection in main; a list assembled element by element in a helper has other pieces',
-              'bn35-08': 'parse_sub_formula tries parse_binary_operator and falls back to the left operand when it fails (`let Ok(op) = .. else { return Ok(left) }`): safe only because that callee never consumes a token before failing; A1 flags every inspected Result of a token-consuming function and does not derive failure-cleanliness of the callee'}
+_BN9_KNOWN = {'bn34-03': 'max_clique_gen writes its three vertex lists through a new helper with a hand-written separator loop: the clique text rules compare the pieces of text main emits with a reference bag of templates and count the uses of the vertex collection in main; a list assembled element by element in a helper has other pieces'}
 for _k, _checks in _BN9.items():
     for _n in range(1, 9):
         _id = 'bn%d-%02d' % (_k, _n)
@@ -908,6 +907,20 @@ CASES += [
                 Ok(Self::False)''', expect={'C08': 'A3'}, control=False),
  dict(id='parser-peeked-var-not-consumed', kind='fire', file=P, patch='bn35-07.diff', old='''            Some(SymbolicBDDToken::Var(var)) => {
                 tokens.next();''', new='''            Some(SymbolicBDDToken::Var(var)) => {''', expect={'C08': 'violation'}, control=False),
+ # a Result looked at instead of propagated is fine exactly when the callee refuses cleanly (bn35-08); these must still fire
+ dict(id='negation-operand-failure-swallowed', kind='fire', file=P, old='        let sf = Self::parse_simple_sub_formula(tokens)?;\n', new='        let Ok(sf) = Self::parse_simple_sub_formula(tokens) else {\n            return Ok(Self::True);\n        };\n', expect={'C08': 'A1'}, control=False),
+ dict(id='operator-tried-unclean-callee', kind='fire', file=P, patch='bn35-08.diff', old='''        let Ok(op) = Self::parse_binary_operator(tokens) else {
+            return Ok(left);
+        };
+
+        let right = Self::parse_sub_formula(tokens)?;''', new='''        let Ok(op) = Self::parse_binary_operator(tokens) else {
+            return Ok(left);
+        };
+
+        let Ok(right) = Self::parse_sub_formula(tokens) else {
+            return Ok(left);
+        };''', expect={'C08': 'A1'}, control=False),
+ dict(id='operator-tried-fallback-wraps-left', kind='fire', file=P, patch='bn35-08.diff', old='            return Ok(left);\n        };\n\n        let right', new='            return Ok(Self::Not(Box::new(left)));\n        };\n\n        let right', expect={'C08': 'violation'}, control=False),
  # the round-9 seeds that needed a new rule or a wider bundle
  dict(id='number-token-fallback-value', kind='fire', file=P, patch='../../seeded/C05-r9b/patch.diff', expect={'C05': 'number conversion'}, control=False),
  dict(id='number-token-text-bound-first', kind='silent', file=P, old='''                let parsed_number = number.as_str().parse().map_err(|e| {''', new='''                let digits = number.as_str();
